@@ -340,7 +340,9 @@ func runC09(c *Ctx) error {
 			if u.opts.WorkSub != "" {
 				os.RemoveAll(filepath.Join(c.W.Dir, u.opts.WorkSub))
 			}
-			if u.kind == "hostile" || u.kind == "nullable" || u.kind == "regen" {
+			if u.kind == "hostile" || u.kind == "nullable" {
+				// (regen units are random rich grammars: one whose start symbol derives itself is
+				// refused with status 2 by design, which C04 judges)
 				// a well-formed grammar must not be refused because of how it is spelled
 				if !(hasFlag(u.flags, "-no_lexer") && hasFlag(u.flags, "-debug_lexer")) {
 					w.Note = fmt.Sprintf("gocc exits %d on a well-formed grammar: %s", u.res.Exit, trunc(u.res.Stdout+u.res.Stderr, 300))
